@@ -76,3 +76,140 @@ def validate_contract():
                     requires=[('length', lambda a: NSEL >= 0)],
                     raises={'InvalidSelectorError': bad}, handlers={'_validate_selector': h_vs}, loops={0: {'kind': 'inv', 'inv': inv}},
                     note='raises iff the list is empty/None or some selector addresses nothing')
+
+
+# ------------------------------------------------------------------ object-level markings as set algebra (C07)
+OM = 'stix2/markings/object_markings.py'
+REFS = z3.Const('obj.object_marking_refs', SetS)            # the object's current object-level markings (as a set)
+HAS_REFS = z3.Bool('obj.has_object_marking_refs')
+MARK = z3.Const('marking(list)', SetS)                      # the marking argument after convert_to_marking_list
+
+
+def _sl(t, nonempty=None): return Val('strlist', t, x={'nonempty': nonempty} if nonempty is not None else None)
+
+
+def _object_marking_common():
+    def m_get(x, recv, args, e, p, site):
+        if not (args and args[0].sort == 'str' and z3.is_string_value(args[0].t) and args[0].t.as_string() == 'object_marking_refs'): raise Unsupported(site)
+        u = z3.FreshConst(S, 'u')
+        yield p, _sl(z3.Lambda([u], z3.And(HAS_REFS, REFS[u])))     # absent => the default []
+
+    def sub_obj(x, o, k, p, site):
+        q = p.fork(z3.Not(HAS_REFS))
+        if sat(q.pc): yield q, Exc('KeyError', site)
+        q = p.fork(HAS_REFS)
+        if sat(q.pc): yield q, _sl(REFS)
+
+    def h_convert(x, e, p, site): yield p, _sl(MARK)
+
+    def add_lists(x, a, b, p, site):
+        u = z3.FreshConst(S, 'u'); yield p, _sl(z3.Lambda([u], z3.Or(a.t[u], b.t[u])))
+
+    def h_set_list(x, e, p, site):
+        for p1, vs in x.ev_seq(list(e.args), p):
+            yield p1, (vs if isinstance(vs, Exc) else vs[0])
+
+    def contains(x, c, item, p, site): yield p, Bool(c.t[item.t])
+
+    def truthy(x, v):
+        u = z3.FreshConst(S, 'u'); return z3.Exists([u], v.t[u])
+
+    def it_strlist(x, it, p, site):
+        raise Unsupported(site + ' direct iteration of a marking list')
+
+    def comp(x, e, p):
+        """[x for x in A if x not in B] -> A - B ;  (x not in A for x in B) / (x in A for x in B) -> quantified generator"""
+        (g,) = e.generators; var = g.target.id
+        for p1, src in x.ev(g.iter, p):
+            if isinstance(src, Exc):
+                yield p1, src; continue
+            if src.sort != 'strlist': raise Unsupported(x.site(e) + ' comprehension source ' + src.sort)
+            def member_pred(test, u):
+                # test is `var in C` / `var not in C`
+                if not (isinstance(test, ast.Compare) and isinstance(test.left, ast.Name) and test.left.id == var and len(test.ops) == 1): raise Unsupported(x.site(e) + ' comprehension test')
+                outs = list(x.ev(test.comparators[0], p1))
+                if len(outs) != 1 or isinstance(outs[0][1], Exc): raise Unsupported(x.site(e) + ' comprehension container')
+                c = outs[0][1]
+                if c.sort != 'strlist': raise Unsupported(x.site(e) + ' comprehension container sort ' + c.sort)
+                return c.t[u] if isinstance(test.ops[0], ast.In) else z3.Not(c.t[u])
+            u = z3.FreshConst(S, 'u')
+            if isinstance(e.elt, ast.Name) and e.elt.id == var:
+                cond = z3.And(*[member_pred(t, u) for t in g.ifs]) if g.ifs else z3.BoolVal(True)
+                yield p1, _sl(z3.Lambda([u], z3.And(src.t[u], cond)))
+            elif isinstance(e.elt, ast.Compare) and not g.ifs:
+                yield p1, Val('boolgen', x=(src.t, lambda uu: member_pred(e.elt, uu)))
+            else: raise Unsupported(x.site(e) + ' comprehension shape')
+
+    def h_any(x, e, p, site):
+        for p1, vs in x.ev_seq(list(e.args), p):
+            if isinstance(vs, Exc):
+                yield p1, vs; continue
+            g = vs[0]
+            if g.sort != 'boolgen': raise Unsupported(site + ' any over ' + g.sort)
+            u = z3.FreshConst(S, 'u'); src, pred = g.x
+            yield p1, Bool(z3.Exists([u], z3.And(src[u], pred(u))))
+
+    def h_bool(x, e, p, site):
+        for p1, vs in x.ev_seq(list(e.args), p):
+            yield p1, (vs if isinstance(vs, Exc) else Bool(x.truthy(vs[0])))
+
+    def h_new_version(x, e, p, site):
+        kw = {k.arg: k.value for k in e.keywords}
+        for p1, vs in x.ev_seq(list(e.args) + list(kw.values()), p):
+            if isinstance(vs, Exc):
+                yield p1, vs; continue
+            named = dict(zip(kw, vs[len(e.args):]))
+            x.oblige('call(new_version): the object itself is versioned, with allow_custom=True', p1.pc,
+                     z3.BoolVal(len(e.args) == 1 and vs[0] is x.params['obj'] and named.get('allow_custom') is not None and named['allow_custom'].sort == 'bool' and z3.is_true(named['allow_custom'].t)
+                                and set(named) == {'object_marking_refs', 'allow_custom'}), p1.exact, 'call-requires')
+            for exn in ('STIXError', 'ValueError'): yield p1.fork(), Exc(exn, site + ':new_version')
+            yield p1, Val('newver', x=named['object_marking_refs'])
+    return dict(params={'obj': Val('markedobj', x='obj'), 'marking': 'opaque'},
+                handlers={'utils.convert_to_marking_list': h_convert, 'set': h_set_list, 'list': h_set_list, 'any': h_any, 'bool': h_bool, 'new_version': h_new_version},
+                registry_ext={'methods': {('.get', 'markedobj'): m_get}, 'subscript': {('markedobj', 'str'): sub_obj}, 'binops': {('strlist', 'Add', 'strlist'): add_lists},
+                              'contains': {('strlist', 'str'): contains}},
+                truthy_handlers={'strlist': truthy}, comprehensions={'*': comp})
+
+
+def _new_refs(r):
+    """the set handed to new_version as object_marking_refs (None => the property is removed => empty set)"""
+    if r.sort != 'newver': raise SortMismatch('result is not a new version: ' + r.sort)
+    v = r.x
+    if v.sort == 'none': return z3.K(S, False), z3.BoolVal(True)
+    if v.sort == 'strlist': return v.t, z3.BoolVal(False)
+    raise SortMismatch('object_marking_refs value sort ' + v.sort)
+
+
+def object_add_contract():
+    u = z3.String('u!oa'); cur = lambda uu: z3.And(HAS_REFS, REFS[uu])
+    k = _object_marking_common()
+    return Contract(f'{OM}::add_markings', props=['C07'], ensures=[('new marking set == old | added (a set: idempotent, order-independent)',
+                    lambda a, r: z3.ForAll([u], _new_refs(r)[0][u] == z3.Or(cur(u), MARK[u])))], raises={'STIXError': None, 'ValueError': None}, **k)
+
+
+def object_remove_contract():
+    u = z3.String('u!or'); cur = lambda uu: z3.And(HAS_REFS, REFS[uu])
+    k = _object_marking_common()
+
+    def ens(a, r):
+        if r.sort == 'markedobj':       # nothing marked: the object itself is returned
+            return z3.Not(z3.Exists([u], cur(u)))
+        new, removed = _new_refs(r)
+        return z3.And(z3.ForAll([u], new[u] == z3.And(cur(u), z3.Not(MARK[u]))), z3.ForAll([u], z3.Implies(MARK[u], cur(u))))
+    return Contract(f'{OM}::remove_markings', props=['C07'], ensures=[('new marking set == old - removed; every removed marking was present', ens)],
+                    raises={'MarkingNotFoundError': lambda a: z3.And(z3.Exists([u], cur(u)), z3.Exists([u], z3.And(MARK[u], z3.Not(cur(u))))), 'STIXError': None, 'ValueError': None}, **k)
+
+
+def object_is_marked_contract():
+    u = z3.String('u!oi'); cur = lambda uu: z3.And(HAS_REFS, REFS[uu])
+    k = _object_marking_common()
+    return Contract(f'{OM}::is_marked', props=['C07'],
+                    ensures=[('marked with M <=> M among the object markings; no marking given <=> any object marking',
+                              lambda a, r: (r.t if r.sort == 'bool' else z3.BoolVal(False)) == z3.If(z3.Exists([u], MARK[u]), z3.Exists([u], z3.And(MARK[u], cur(u))), z3.Exists([u], cur(u))))],
+                    raises={}, **k)
+
+
+def object_clear_contract():
+    k = _object_marking_common()
+    k['params'] = {'obj': k['params']['obj']}
+    return Contract(f'{OM}::clear_markings', props=['C07'], ensures=[('all object markings removed', lambda a, r: _new_refs(r)[1])], raises={'STIXError': None, 'ValueError': None}, **k)
